@@ -196,4 +196,22 @@ PROPS['C11']['explanation'] = ('Closed theorems (Properties/C11.v) against the d
     'template_spec vs the real parser hook on every string of length <= 5/6 over the 11-symbol syntax alphabet and on random well/ill-formed templates (incl. semantic fault injection), plus the model parser '
     'vs the real one (Parse). invalid_chars_documented is re-proved on the constant regenerated from src/parser.rs every run.')
 
+PROPS['C11']['explanation'] = ('Closed theorems (Properties/C11.v) against the documented language written over lists (Spec/Grammar.v: gparse / expand_items for the optional groups, wellformed_exp for one '
+    'expansion - leading \'/\', balanced braces, the four parameter forms with non-empty names free of : * { } ( ) /, non-empty valid constraints, no touching parameters, no repeated name, backslash '
+    'makes the next byte literal, a trailing backslash is literal, everything else verbatim): C11_parser_is_the_documented_language - for EVERY valid UTF-8 string t, to_opt (parse t) = template_spec t: '
+    'the parser model accepts exactly the documented language and returns exactly the documented expansions, in order, with the documented decoded parts (C11_accepted_iff_documented, '
+    'C11_rejected_iff_not_documented; per expansion: C11_one_expansion_parsed_as_documented). Proof: (1) the index-based group scanner equals a list-level scanner (scan_is_scanL); (2) the list scanner '
+    'equals the recursive-descent grammar (matching parenthesis by depth counting = first unmatched \')\' of gparse: depth_after, G_balanced, G_unclosed; product algebra of expand_items) - expandL_spec; '
+    '(3) per expansion, index-vs-suffix lemmas and the loop invariant (parse_template_spec); valid UTF-8 cut at ASCII delimiters stays valid (utf8_cut, utf8_app), so from_utf8 checks never fire. '
+    'Tie to the code: the model parser vs the real parser hook (Parse: every string of length <= 5/6 over the 11-symbol syntax alphabet, random templates with semantic fault injection), and '
+    'template_spec vs the real hook directly (Grammar). invalid_chars_documented is re-proved on the constant regenerated from src/parser.rs every run.')
+PROPS['C04']['level'] = 'proof'
+PROPS['C04']['explanation'] = ('Closed theorems (Properties/C04.v): C04_expansions_as_documented / C04_parser_returns_the_documented_expansions - for every valid UTF-8 template the parser model returns '
+    'exactly the documented expansions (every keep/drop choice of every group, an inner group kept only with its parent, a completely empty result replaced by "/"), in the documented order, each decoded '
+    'as documented (expand = expansions_spec, Proofs/ExpandSpecP.v); C04_insert_stores_exactly_the_expansions - for every history, a successful insert stores, for each distinct expansion route, exactly the '
+    'info tinfo t d es r0 and changes nothing else; C04_stored_info_reports_template_and_expansion - that info carries the original template, the data and the text of one expansion with that route. '
+    'With C03 (search = documented walk over the stored routes, for every history) a grouped template routes exactly as the set of its expansions. Partial, named: the side-by-side statement '
+    '"router holding the grouped template == router holding the expansions inserted one by one, up to the reported template/expansion fields" is not a single theorem (it needs expand(e) = [e] for every '
+    'expansion text e); it is decided by the groups scenario: W on the registry built from the spec expansions for both routers, hook output vs expansions_spec incl. order.')
+
 NOT_APPLICABLE = {}
